@@ -179,12 +179,13 @@ class Ctx(object):
     def begin_op(self):
         self.nstmt = 0; self.suppress = False
     # ---- scheduling
+    def report(self, rep, snap, done):
+        ev, self.events = self.events, []
+        return {'res': rep[0], 'v': rep[1], 'snap': self.snap() if snap else None, 'events': ev, 'locks': self.locks(), 'done': done}
     def yield_(self, rep, snap=True):
-        ev, self.events = self.events, []
-        self.sched.handoff(self.tid, (rep, self.snap() if snap else None, ev, self.locks()))
+        self.sched.handoff(self.tid, self.report(rep, snap, False))
     def finish(self, rep):
-        ev, self.events = self.events, []
-        self.sched.finish(self.tid, (rep, self.snap(), ev, self.locks()))
+        self.sched.finish(self.tid, self.report(rep, True, True))
     def locks(self):
         return [self.env.lock.owner, self.env.pre.owner]
     # ---- statement hook
@@ -317,42 +318,34 @@ def worker(ctx, prog):
 
 
 def run_real(env, case):
-    """run the case on real Pony; returns the executed picks with their reports, the committed rows after each segment"""
+    """run the case on real Pony; returns one record per executed segment and the committed rows at the end"""
     env.reset(case['rows'])
     n = len(case['progs'])
     sched = Sched(n)
     ctxs = [Ctx(t, env, sched, case['sessOpt'][t]) for t in range(n)]
     threads = [threading.Thread(target=worker, args=(ctxs[t], case['progs'][t]), daemon=True) for t in range(n)]
     for th in threads: th.start()
-    finished = [len(case['progs'][t]) == 0 for t in range(n)]
-    # a thread with an empty program still has to be released once
+    finished = [False] * n
     trace = []
     rows = env.committed()
     def one(t):
         nonlocal rows
         rep = sched.resume(t)
-        (res, v), snap, events, locks = rep
         after = env.committed()
-        trace.append({'t': t, 'res': res, 'v': v, 'snap': snap, 'events': events, 'locks': locks, 'before': rows, 'after': after})
+        trace.append(dict(rep, t=t, before=rows, after=after))
         rows = after
-        if res not in ('ok', 'notLoaded', 'flushing', 'blocked'): finished[t] = True
-        elif res in ('ok', 'notLoaded') and snap is not None and pcs_done(t): finished[t] = True
-    # the worker finishes (does not wait again) after its last operation: track program counters as the model does
-    pcs = [0] * n
-    def pcs_done(t):
-        pcs[t] += 1
-        return pcs[t] >= len(case['progs'][t])
-    for t in range(n):
-        if finished[t]: sched.resume(t)     # empty program: let the thread end
-    for t in case['picks']:
-        if not finished[t]: one(t)
-    guard = 0
-    while not all(finished):
-        for t in range(n):
+        if rep['done']: finished[t] = True
+    try:
+        for t in case['picks']:
             if not finished[t]: one(t)
-        guard += 1
-        if guard > 200: raise RuntimeError('scheduler: threads do not terminate')
-    for th in threads: th.join(10)
+        guard = 0
+        while not all(finished):
+            for t in range(n):
+                if not finished[t]: one(t)
+            guard += 1
+            if guard > 500: raise RuntimeError('scheduler: threads do not terminate')
+    finally:
+        for th in threads: th.join(5 if all(finished) else 0.01)
     return trace, rows
 
 
